@@ -87,9 +87,9 @@ def run(ctx):
             ctx.sample({"name": c["name"], "root": c["root"], "opts": c["opts"]["nm"], "segs": c["segs"], "must_reject": c["must"]})
 
     # ---- secondary part: the random driver (seeded mutations of spec-generated valid encodings)
-    nb = 120 if ctx.quick else 1200
-    per = 150 if ctx.quick else 300
-    g = run_tlc(ctx.sub("gen_bases"), "GenCodecRt", {"Lvl": 1}, spec="Spec", invariants=["Emit"], workers=4, timeout=900)
+    nb = 60 if ctx.quick else 1200
+    per = 100 if ctx.quick else 300
+    g = run_tlc(ctx.sub("gen_bases"), "GenCodecRt", {"Lvl": 0 if ctx.quick else 1}, spec="Spec", invariants=["Emit"], workers=4, timeout=900)
     if g.error:
         raise ToolError("TLC error in GenCodecRt: %s" % g.error[:2000])
     bases = [(c["c"]["ty"], c["exp"]["bytes"]) for c in parse_case_lines(g.printed) if len(c["exp"]["bytes"]) >= 3]
